@@ -53,7 +53,14 @@ def run(ctx, B):
         for gname, members, weight in groups:
             gm = mac[gname + "_LINE"]
             r = X.call("LineEnergy", Zs, np.full(len(Zs), gm))
-            ctx.add(evaluations=len(Zs))
+            # the same column twice more in the same process (without and with an error slot): value and error status must not depend on earlier calls
+            X.call("LineEnergy", Zs, np.full(len(Zs), gm), mode=xrl.M_NULL)
+            r_again = X.call("LineEnergy", Zs, np.full(len(Zs), gm))
+            ctx.add(evaluations=3 * len(Zs))
+            for j in np.nonzero((r_again["v0"].view(np.uint64) != r["v0"].view(np.uint64)) | ((r_again["flags"] & F_ERR) != (r["flags"] & F_ERR)))[0][:20]:
+                ctx.violation("%s|LineEnergy|%s|Z=%d|repeat-differs" % (cfg, gname, int(Zs[j])), "LineEnergy(%d,%s): first call value=%r err=%s, a later identical call value=%r err=%s" % (
+                    int(Zs[j]), gname, float(r["v0"][j]), bool(r["flags"][j] & F_ERR), float(r_again["v0"][j]), bool(r_again["flags"][j] & F_ERR)),
+                    dict(cfg=cfg, calls=[dict(fn="LineEnergy", args=[int(Zs[j]), int(gm)])] * 3))
             for j, Z in enumerate(Zs):
                 Z = int(Z)
                 err = bool(r["flags"][j] & F_ERR); v = float(r["v0"][j])
